@@ -531,6 +531,7 @@ func c19Setup() {
 		}
 		c19Targets = append(c19Targets, t)
 	}
+	c19RegisterReentry()
 	// plugin functions, through the real registration machinery
 	c19Targets = append(c19Targets, c19RegisterPlugins()...)
 	// every function of the generated stdlib
@@ -646,6 +647,9 @@ func c19Eval(src string) (interface{}, error) {
 
 func c19Run(payload string) (res string) {
 	f := strings.Split(payload, " ")
+	if len(f) > 4 && f[1] == "R" {
+		return c19RunReentry(f[2:])
+	}
 	t := c19ByName[f[0]]
 	if t == nil {
 		return "unknown-function"
@@ -770,6 +774,7 @@ func c19Gen(g *Gen) {
 			emit(t, mode, idx)
 		}
 	}
+	c19GenReentry(g) // first: few and small
 	dExh, iExh, dSample, iSample := 2, 2, 40, 20
 	if g.Thorough() {
 		dExh, iExh, dSample, iSample = 3, 2, 600, 300
